@@ -1,49 +1,92 @@
 (* C08 -- Mock verdict is exact: passes iff actual calls match the expectations.
-   Only statements; every proof is `exact <lemma>` into C08_Proofs*.v.
-   Proved fragment: expectNCalls/expectOneCall with typed input parameters and return values, actualCall + withParameter +
-   returnValue, checkExpectations, strictOrder, ignoreOtherCalls, on canonical scenarios (configuration, expectations, calls,
-   final check) whose actual calls pass no parameter name twice.  NOT covered by the theorems (model = implementation agreement
-   and the spec oracle only): ignoreOtherParameters, intermediate clear/check, expectations added between calls; not modelled:
-   onObject, output parameters, custom comparators, scopes. *)
+   Only statements; every proof is `exact <lemma>` into C08_Proofs*.v / C08_Scopes.v.
+   Proved fragment: expectNCalls/expectOneCall with typed input parameters, output parameters (withOutputParameterReturning), onObject
+   and return values; actualCall + withParameter / withOutputParameter / onObject in ANY order + returnValue; checkExpectations,
+   strictOrder, ignoreOtherCalls; on mock() and on named scopes mock("s") -- canonical scenarios (configuration of any scope,
+   expectations of any scope, interleaved calls, final mock().checkExpectations()) whose actual calls pass no parameter name twice
+   and at most one object, and whose functions are uniform in naming an object.  NOT covered by the theorems (model =
+   implementation agreement and the spec oracle only): ignoreOtherParameters, expectations without object called on an object,
+   intermediate clear/check/expectedCallsLeft, enable/disable, expectations added between calls; not modelled: custom
+   comparators/copiers, tracing, nested scopes. *)
 From Coq Require Import ZArith NArith Bool List Permutation.
-From CppUVerif Require Import lib.CInt lib.Str C08_Model C08_Proofs C08_Proofs2 C08_Proofs3.
+From CppUVerif Require Import lib.CInt lib.Str C08_Model C08_Proofs C08_Proofs2 C08_Scopes C08_Proofs3.
 From CppUVerif Require C09_Model.
 Import ListNotations.
 
-(* L refines M: the flag/candidate-list machinery of the code (model L) delivers, on every judged scenario -- for arbitrary, also
-   overlapping, expectation sets -- the same failing operation, the same diagnosis and the same returned values as the flag-free
-   reference semantics M (remaining capacities, first open expectation that is exactly the call). *)
+(* L refines M on one mock: the flag/candidate-list machinery of the code (model L) delivers, on every judged scenario -- for
+   arbitrary, also overlapping, expectation sets -- the same failing operation, the same diagnosis and the same returned values as
+   the flag-free reference semantics M (remaining capacities, first open expectation that is exactly the call), and every output
+   buffer begins with the bytes of the consumed expectation, whatever the order of withParameter / withOutputParameter / onObject. *)
 Theorem C08_L_refines_M : forall ops k,
-  parse ops = Some k -> judged k = true -> proj (run ops) = lift (expected k).
+  parse ops = Some k -> judged k = true ->
+  proj (run ops) = lift (expected k) /\ outs_ok (expected_outs k) (o_outs (run ops)) = true.
 Proof. exact L_refines_M. Qed.
 Print Assumptions C08_L_refines_M.
 
-(* spec s (run s) = true; _partial: the first clause of the spec (passes iff multisets / sequences agree) is assumed to be M's
-   verdict for the scenario (verdict_agrees: the M-level counting theorem is not proved in general yet); the first-deviation and
-   returned-value clauses are proved outright. *)
+(* the same over mock() and its named scopes: configuration (strictOrder reaches mock() and the scopes created later,
+   ignoreOtherCalls every scope), per-scope expectations, interleaved calls, the final mock().checkExpectations() that finishes
+   every scope's last call in creation order and reports an unfulfilled / out-of-order expectation of ANY scope *)
+Theorem C08_W_refines_M : forall ops k,
+  parsew ops = Some k -> judgedw k = true ->
+  proj (runw ops) = lift (mr_fail (expectedw k), mr_rets (expectedw k)) /\ outs_ok (mr_outs (expectedw k)) (o_outs (runw ops)) = true.
+Proof. exact W_refines_M. Qed.
+Print Assumptions C08_W_refines_M.
+
+(* on M the scenario over the scopes passes iff every scope's own scenario passes ... *)
+Theorem C08_verdict_scopes : forall k,
+  mr_fail (expectedw k) = None <-> forall s, In s (0%N :: scopes_of k) -> mr_fail (expected_res (scope_canon k s)) = None.
+Proof. exact verdict_scopes. Qed.
+Print Assumptions C08_verdict_scopes.
+
+(* ... hence the model passes a judged scenario iff in EVERY scope the reference semantics passes that scope's calls against that
+   scope's expectations *)
+Theorem C08_verdict_every_scope : forall ops k,
+  parsew ops = Some k -> judgedw k = true ->
+  (o_fail (runw ops) = None <-> forall s, In s (0%N :: scopes_of k) -> fst (expected (scope_canon k s)) = None).
+Proof. exact verdict_every_scope. Qed.
+Print Assumptions C08_verdict_every_scope.
+
+(* specw s (runw s) = true (the functions the check runs); _partial: the first clause of the spec (passes iff in every scope the
+   multisets / sequences agree) is assumed to be M's verdict for each scope (verdict_agrees: the M-level counting theorem is not
+   proved in general); the first-deviation, returned-value and output-bytes clauses are proved outright. *)
+Theorem C08_runw_meets_specw_partial : forall ops,
+  (forall k s, parsew ops = Some k -> judgedw k = true -> In s (0%N :: scopes_of k) -> verdict_agrees (scope_canon k s)) ->
+  specw ops (runw ops) = true.
+Proof. exact runw_meets_specw_partial. Qed.
+Print Assumptions C08_runw_meets_specw_partial.
+
+(* the same for one mock *)
 Theorem C08_run_meets_spec_partial : forall ops,
   (forall k, parse ops = Some k -> judged k = true -> verdict_agrees k) -> spec ops (run ops) = true.
 Proof. exact run_meets_spec_partial. Qed.
 Print Assumptions C08_run_meets_spec_partial.
 
+(* operations on mock() only, with no scope ever created, are the one-mock model *)
+Theorem C08_runw_global : forall ops, runw (map (pair 0%N) ops) = run ops.
+Proof. exact runw_global. Qed.
+Print Assumptions C08_runw_global.
+
 (* first deviation: a judged scenario fails with exactly M's diagnosis at M's operation; the FAIL("This cannot happen") of
-   MockCheckedActualCall::checkExpectations and (in this fragment) the missing-object failure are unreachable *)
+   MockCheckedActualCall::checkExpectations is unreachable *)
 Theorem C08_first_deviation : forall ops k i fl,
   parse ops = Some k -> judged k = true -> o_fail (run ops) = Some (i, fl) ->
-  f_kind fl <> FCannotHappen /\ (forall f, f_kind fl <> FObjectMissing f) /\
-  exists d, fst (expected k) = Some (i, d) /\ dkind_of (f_kind fl) = Some d.
+  f_kind fl <> FCannotHappen /\ exists d, fst (expected k) = Some (i, d) /\ dkind_of (f_kind fl) = Some d.
 Proof. exact no_impossible_failure. Qed.
 Print Assumptions C08_first_deviation.
 
-(* within one actual call: between the parameters the candidates are exactly the open expectations agreeing with the parameters
-   passed so far, their flags say which parameters were passed, nothing is finalized (appendix A1), and finishing the call
-   consumes the first open expectation that is exactly the call, returning its value *)
+(* within one actual call: between the items the candidates are exactly the open expectations agreeing with the items passed so
+   far, their flags say which parameters / whether the object were passed, nothing is finalized (appendix A1), and finishing the call
+   consumes the first open expectation that is exactly the call, returning its value and having filled every output buffer passed
+   with its bytes; otherwise the failure is the missing parameter or, when only the object is missing, the missing object *)
 Theorem C08_call_consumes_exact : forall f P es c,
   Inv f P es c -> Forall wfE es ->
   match check_call es c with
-  | inl (es', c') => exists v, consume f P (c_order c) (map abs es) = Some (map abs es', v) /\ cur_ret es' = v /\
+  | inl (es', c') => exists e, consume f P (c_order c) (map abs es) = Some (map abs es', e) /\ cur_ret es' = sx_ret e /\
+                               outs_ok (out_bytes e P) (map snd (c_outs c')) = true /\
                                c_state c' = Succeeded /\ c_checked c' = true /\ Forall wfE es'
-  | inr fl => consume f P (c_order c) (map abs es) = None /\ f_kind fl = FParamMissing f (N.of_nat (length (filter e_pot es))) /\
+  | inr fl => consume f P (c_order c) (map abs es) = None /\
+              f_kind fl = (if existsb (fun e => liveL f P e && negb (pcoveredL P e)) es
+                           then FParamMissing f (N.of_nat (length (filter e_pot es))) else FObjectMissing f) /\
               exists e, In e es /\ liveL f P e = true
   end.
 Proof. exact finish_inv. Qed.
@@ -51,7 +94,7 @@ Print Assumptions C08_call_consumes_exact.
 
 (* the invariant is established by the constructor + withName from ANY flag state (this is what the repair guarantees) ... *)
 Theorem C08_call_starts_clean : forall f es c,
-  (forall e, In e es -> e_ign e = false) -> c_name c = f -> c_checked c = false ->
+  (forall e, In e es -> e_ign e = false) -> c_name c = f -> c_checked c = false -> c_outs c = [] ->
   match with_name (create true es) c with
   | inr fl => (forall e, In e es -> can_match e && relates f e = false) /\
               f_kind fl = (let n := fulfilled_for f es in if (0 <? n)%N then FAdditionalCall f (n + 1)%N else FUnexpectedCall f)
@@ -61,23 +104,41 @@ Theorem C08_call_starts_clean : forall f es c,
 Proof. exact with_name_inv. Qed.
 Print Assumptions C08_call_starts_clean.
 
-(* ... and preserved by every parameter not passed before *)
-Theorem C08_parameter_preserves_invariant : forall f P n v es c,
-  Inv f P es c -> passed P n = false ->
-  match check_input n v es c with
-  | inr fl => (forall e, In e es -> liveL f (P ++ [(n, v)]) e = false) /\
-              f_kind fl = (if existsb (fun e => relates f e && has_input_name n e) es then FParamValue f n else FParamName f n)
-  | inl (es', c') => Inv f (P ++ [(n, v)]) es' c' /\ map stat es' = map stat es /\ c_order c' = c_order c /\
-                     exists e, In e es /\ liveL f (P ++ [(n, v)]) e = true
+(* ... preserved by every input / output parameter not passed before ... *)
+Theorem C08_parameter_preserves_invariant : forall f P it es c,
+  Inv f P es c -> fresh P it = true -> is_param it = true ->
+  match with_item it es c with
+  | inr fl => (forall e, In e es -> liveL f (P ++ [it]) e = false) /\ f_kind fl = fail_kind f it es
+  | inl (es', c') => Inv f (P ++ [it]) es' c' /\ map stat es' = map stat es /\ c_order c' = c_order c /\
+                     exists e, In e es /\ liveL f (P ++ [it]) e = true
   end.
-Proof. exact check_input_inv. Qed.
+Proof. exact with_item_param_inv. Qed.
 Print Assumptions C08_parameter_preserves_invariant.
 
-(* a call succeeds iff some unfulfilled expectation of that function has exactly the call's parameter set *)
+(* ... and by onObject, wherever it stands among the parameters, when the function's expectations are uniform in naming an object *)
+Theorem C08_object_preserves_invariant : forall f P a es c,
+  Inv f P es c -> passed_obj P = false -> unif f es ->
+  match on_object a es c with
+  | inr fl => (forall e, In e es -> liveL f (P ++ [IObj a]) e = false) /\ f_kind fl = FObjectUnexpected f
+  | inl (es', c') => Inv f (P ++ [IObj a]) es' c' /\ map stat es' = map stat es /\ c_order c' = c_order c /\
+                     exists e, In e es /\ liveL f (P ++ [IObj a]) e = true
+  end.
+Proof. exact on_object_inv. Qed.
+Print Assumptions C08_object_preserves_invariant.
+
+(* a call succeeds iff some unfulfilled expectation of that function is exactly the call (object, parameter set, outputs) *)
 Theorem C08_call_succeeds_iff : forall f ps o xs,
   (exists xs' v, consume f ps o xs = Some (xs', v)) <-> (exists x, In x xs /\ x_open x = true /\ matches (x_e x) f ps = true).
 Proof. exact call_succeeds_iff. Qed.
 Print Assumptions C08_call_succeeds_iff.
+
+(* a checked call that is not deferred hands back the return value and the output bytes of the expectation it consumed *)
+Theorem C08_returns_consumed : forall ign kn st c st' rv,
+  m_call ign kn st c = inl (st', rv) -> ign && negb (kn (sc_f c)) = false -> s_pend st' = None ->
+  exists e, consume (sc_f c) (sc_items c) (s_order st + 1)%N (s_xs st) = Some (s_xs st', e) /\
+            fst rv = (if sc_want c then Some (sx_ret e) else None) /\ snd rv = out_bytes e (sc_items c).
+Proof. exact call_returns_consumed. Qed.
+Print Assumptions C08_returns_consumed.
 
 (* the verdict clause of the spec is independent of the order of the actual calls *)
 Theorem C08_verdict_permutation_invariant : forall es cs cs', Permutation cs cs' -> multiset_ok es cs = multiset_ok es cs'.
